@@ -11,11 +11,11 @@
 package main
 
 import (
+	"bufio"
 	"crypto/sha256"
 	"encoding/hex"
 	"encoding/json"
 	"fmt"
-	"bufio"
 	"io"
 	"math"
 	"os"
@@ -165,21 +165,21 @@ type object struct {
 	val      any // *ir.Module (kept as any so this file stays compiler-agnostic)
 	base     uint64
 	flat     []fp.Entry
-	live     bool // published and monitored
-	busyBy   int  // >=0: task running a legitimate in-place mutator on it
-	dirty    bool // currently differs from baseline (already reported)
-	dirtyIdx int  // index of the violation that reported it
+	live     bool   // published and monitored
+	busyBy   int    // >=0: task running a legitimate in-place mutator on it
+	dirty    bool   // currently differs from baseline (already reported)
+	dirtyIdx int    // index of the violation that reported it
 	lastHash uint64 // fingerprint at the last check while dirty
 }
 
 type opState struct {
 	started, done bool
 	res           proto.OpResult
-	raw           []byte         // the very slice/string bytes handed to the caller (O-ALIAS)
+	raw           []byte // the very slice/string bytes handed to the caller (O-ALIAS)
 	rawStr        string
-	infoMaps      []any          // maps inside returned reflection data (scribble targets)
+	infoMaps      []any // maps inside returned reflection data (scribble targets)
 	scribbled     bool
-	modObj        int            // module object the op reads (-1 none)
+	modObj        int // module object the op reads (-1 none)
 }
 
 type world struct {
@@ -586,9 +586,9 @@ func runScenario(sc *proto.Scenario, nSites int) (res *proto.Result) {
 			if st.done && !st.scribbled && st.res.OK && st.raw != nil {
 				if h := hashBytes(st.raw); h != st.res.OutHash {
 					w.addViolation(proto.Violation{Class: "O-ALIAS", Task: ti, Op: oi, Kind: st.res.Kind,
-						Object:  fmt.Sprintf("result of task %d op %d", ti, oi),
-						Detail:  "bytes returned earlier were overwritten by a later call: " + st.res.OutHash + " -> " + h,
-						AtStep:  simrt.Steps})
+						Object: fmt.Sprintf("result of task %d op %d", ti, oi),
+						Detail: "bytes returned earlier were overwritten by a later call: " + st.res.OutHash + " -> " + h,
+						AtStep: simrt.Steps})
 				}
 			}
 			res.Ops = append(res.Ops, st.res)
